@@ -33,7 +33,7 @@ from pathlib import Path
 from harness.translate import c01_dispatch, c01_tables
 
 ID = "C01"
-LEVEL_TEXT = ("29 theorems (all closed under the global context) about a Gallina model of the static visitor, for ALL statement lists of an abstract "
+LEVEL_TEXT = ("32 theorems (all closed under the global context) about a Gallina model of the static visitor, for ALL statement lists of an abstract "
               "statement language (def/class/assign/annassign/__all__ +=/import/from-import/if/block/handler/docstring statement; any nesting, any "
               "duplication): (1) the stack-and-flag visitor machine (frame stack = Visitor.current, mutable type_guarded saved/restored by visit_if, "
               "events, Python errors) computes exactly a recursive level semantics in which the type-guard flag is an inherited attribute true only "
@@ -56,14 +56,17 @@ LEVEL_TEXT = ("29 theorems (all closed under the global context) about a Gallina
               "continuation / parenthesis lines, any nesting) slicing the rendered lines by a reported span returns exactly the item's text "
               "(function/class from the first decorator line, property-attribute from the def line, docstring = the string constant's lines), and "
               "every member's reported span is the span of an item defining that very name with that kind; Object.lines is that text and "
-              "Object.source its dedent, which removes nothing but a common margin of blanks. (7) The visibility ladders regenerated "
+              "Object.source its dedent, which removes nothing but a common margin of blanks. (6b) Decorator spellings are resolved inside the model, in the scope of that moment (member of the current object, enclosing "
+              "class bodies skipped, module last): every statement of every list is resolved against exactly the frames the machine has reached there; "
+              "(6c) extension containers with a history: any interleaving of Extensions.add and visits announces each visit completely, in order and "
+              "once to every extension registered before it. (7) The visibility ladders regenerated "
               "from mixins.py equal the documented table on all 15360 inputs. Findings F1-F5, F7 repaired; F6 (overload-only names have no member) "
               "stays known with a computed witness. Model tied to the code on every run: two translators (fail closed), differential runs on "
               "generated modules (tree incl. function-object members, spans, labels, docstring spans, flags, imports, exports, event trace; "
               "declarative tables vs every class/__init__ object; layout render/number/spans vs the text and CPython's positions), sequences of "
               "modules in one fresh interpreter in varied order, and direct checks against CPython's ast/exec.")
 LEVEL_NOTE = ("Trusted: Coq kernel, extraction, the two translators (harness/translate/c01_tables.py, c01_dispatch.py: whitelisted AST shapes), the "
-              "payload reading of the harness (raw node -> line numbers, resolved decorator heads and ClassVar through module-level imports, import "
+              "payload reading of the harness (raw node -> line numbers, decorator spellings as written, ClassVar through module-level imports, import "
               "paths for a parentless module, __all__ items, text of an if-test; the structural decisions are made in Coq from the regenerated "
               "tables and cross-checked against the harness's own lowering), the cutting of a source into a layout tree (checked on every run: "
               "render = the text, number = CPython's line numbers), CPython ast/exec as authority. Modelled, not verified: expression contents "
@@ -93,7 +96,7 @@ TRUSTED = ["translators harness/translate/c01_tables.py and c01_dispatch.py (whi
            "payload reading: harness walk over ast.parse(source) into raw nodes (line numbers, decorator head resolution through module-level "
            "imports, relative import paths for a parentless module, __all__ item extraction, if-test text); lowering itself is done in Coq",
            "layout cutting: harness splits the source lines by CPython positions; render/number are checked against text and ast on every run"]
-ASSUMPTIONS = ["decorator heads and ClassVar are resolved through module-level imports only (the generator never shadows them)",
+ASSUMPTIONS = ["ClassVar in annotations is resolved through module-level imports only (decorator spellings are resolved in the model, in scope)",
                "one statement per line in generated modules, so (name, line) identifies a binding occurrence",
                "layout theorems speak about block-form sources (body of a compound statement on its own lines)"]
 TRANSLATOR_NAME = "harness/translate/c01_tables.py + c01_dispatch.py"
@@ -1763,6 +1766,8 @@ def runtime_checks(case, tree, mod):
                 continue
             if name not in sup:
                 continue          # bound by a form Griffe does not support (loop target, with-as, tuple target, star import...)
+            if any(b.get("amb") for b in sup[name]):
+                continue          # overload / property status not readable off the text here (rebound decorator spelling)
             if all(b["overload"] and not b.get("prop") for b in sup[name]):
                 fails.append(("runtime-names", f"{where}: {name!r} (overload-only) bound at runtime, no member", "C01-F6"))
             else:
